@@ -297,3 +297,48 @@ func H_C18_cancel_parked_write() {
 		d.Stop()
 	})
 }
+
+// H_C18_read_cancelled: an envelope for key A is on offer while the consumer's Read runs with a
+// context that is (or becomes) done, then the consumer reads again with a live context. The envelope
+// is handed over exactly once: either the first Read returned it, or it failed and the second Read
+// gets it - a Read that reports an error has not consumed anything.
+func H_C18_read_cancelled() {
+	shared := newZZConn()
+	var connA RpcReadWriter
+	got := make(chan struct{})
+	onNew := func(rw RpcReadWriter) {
+		vfHarnessGoroutine()
+		connA = rw
+		close(got)
+	}
+	d := NewDemux(context.Background(), shared, func(r *Rpc) string { return r.Header.Source }, onNew)
+	go func() {
+		vfHarnessGoroutine()
+		d.Run()
+	}()
+	delivered := 0
+	finished := false
+	go func() {
+		shared.in <- &Rpc{Id: 7, Header: &RpcHeader{Source: "A"}}
+	}()
+	go func() {
+		<-got
+		ctx, cancel := context.WithCancel(context.Background())
+		go func() { cancel() }()
+		r1, err1 := connA.Read(ctx)
+		if err1 == nil {
+			vfAssert(r1 != nil && r1.Id == 7, "first-read-returns-the-envelope")
+			delivered++
+		} else {
+			r2, err2 := connA.Read(context.Background())
+			vfAssert(err2 == nil && r2 != nil && r2.Id == 7, "envelope-still-there-after-a-failed-read")
+			delivered++
+		}
+		finished = true
+	}()
+	vfAtQuiescence(func() {
+		vfAssert(finished && delivered == 1, "envelope-handed-over-exactly-once")
+		vfReach("checked")
+		d.Stop()
+	})
+}
